@@ -46,11 +46,20 @@ FAMILY = GFamily("csrbank/CsrBankGraph", TRACE, FACTORY, clause_map={k: k for k 
 
 
 # ------------------------------------------------------------------------------------------- G-mode
+def _projection_drift(spec, ex):
+    return {"spec": spec, "m": {}, "clause": "Projection (a modelled register was not found by name: %s)" % (ex,),
+            "case": [{}, [], [], {}]}
+
+
 def _l2_on_accept(state):
     """L2 lane: the complete graphs of an accepted batch are handed to the model conformance check"""
     def cb(gl):
-        duts = cl.reshape_duts(l2.graph_cases(gl, cl.LANE))
-        n, dr = l2.conformance(cl.LANE, duts)
+        try:
+            duts = cl.reshape_duts(l2.graph_cases(gl, cl.LANE))
+        except KeyError as ex:          # a register of the model is not in the netlist any more: drift, not a failure
+            state["drifts"].append(_projection_drift(gl.duts[0].spec, ex))
+            return
+        n, dr = cl.conform(cl.LANE, duts, notes=state["notes"])
         state["graph_cases"] += n
         state["graph_duts"] += len(duts)
         state["drifts"] += dr
@@ -166,7 +175,13 @@ def long_runs(report, tier, seed, l2state=None):
         if m is not None:
             # one cycle-by-cycle run of the real netlist serves both T-mode (inputs, outputs) and the L2 lane
             # (registers before / after every clock edge, read by name)
-            reset, cases = l2.run_cases(FACTORY, spec, cl.LANE.proj_path, sched)
+            try:
+                reset, cases = l2.run_cases(FACTORY, spec, cl.LANE.proj_path, sched)
+            except KeyError as ex:
+                if not any(d["clause"].startswith("Projection") for d in l2state["drifts"]):
+                    l2state["drifts"].append(_projection_drift(spec, ex))
+                m = None
+        if m is not None:
             ev = [[c[1], c[2]] for c in cases]
             run_duts.append({"spec": spec, "m": m, "reset": reset, "cases": cases})
         else:
@@ -178,7 +193,7 @@ def long_runs(report, tier, seed, l2state=None):
                long_run_cycles=sum(len(t["ev"]) for t in traces))
     report.sample({"long_run": describe(meta[0][0]), "first_cycles": traces[0]["ev"][:3]})
     if l2state is not None:
-        n, dr = l2.conformance(cl.LANE, cl.reshape_duts(run_duts), workers=4)
+        n, dr = cl.conform(cl.LANE, cl.reshape_duts(run_duts), notes=l2state["notes"])
         l2state["run_duts"] += len(run_duts)
         l2state["run_cases"] += n
         l2state["drifts"] += dr
@@ -197,16 +212,110 @@ def long_runs(report, tier, seed, l2state=None):
                          "%s violated by %s after %d cycles of a random history" % (f["clause"], describe(spec), n))
 
 
+# ------------------------------------------------------------------------------------------- L2 lane
+def _mmode_counterexample(report, res, mcfgs, label):
+    """a counterexample on the model counts only if the real netlist (same register set) shows it too"""
+    x = mcfgs[res.trace[0]["vars"]["d"] - 1]
+    prefix, _ = schedule_from_trace(res)
+    ev = linear_replay(FACTORY, x["spec"], list(prefix))
+    cfg = fam.tla_cfg(x["spec"])
+    tinv = [res.violated] if res.violated in INVS else INVS
+    fails, _ = tracecheck.validate(TRACE, [{"cfg": cfg, "ev": ev}], tinv)
+    if fails:
+        report.violation({"dut": x["spec"], "clause": fails[0]["clause"]},
+                         {"family": "csrbank/CsrBankTrace", "factory": FACTORY, "spec": x["spec"], "cfg": cfg,
+                          "schedule": [list(i) for i in prefix], "prefix_len": len(prefix), "loop_len": 0,
+                          "trace_module": TRACE, "trace_invariants": tinv, "observed": ev, "clause": fails[0]["clause"]},
+                         "%s violated by %s (found on the L2 model in M-mode, reproduced on the netlist) after %d cycles" % (
+                             fails[0]["clause"], describe(x["spec"]), len(prefix)))
+    else:
+        report.note("MODEL-DRIFT csrbank: M-mode counterexample to %s on the model of %s (%s) does not reproduce on the "
+                    "netlist" % (res.violated, describe(x["spec"]), label))
+        report.add(l2_model_drifts=1)
+
+
+def run_l2(report, tier, seed, state):
+    """(a) conformance happened in the phases above (state): every edge of the complete G-mode graphs of the banks and
+    the SRAM windows, every cycle of the long runs, every construction case; (b) M-mode: model x Env x the clauses of
+    the contract for register sets beyond G-mode - the configuration class of the listed finding (atomic write under
+    little ordering) in a run of its own without the clause it is known to fail, exactly as G-mode does; (c) drift
+    notes; a drifting DUT class is explored against the L1 contract at the thorough tier's parameters."""
+    report.add(l2_model={"module": "csrbank/CsrBankModel", "graph_duts_conformant": state["graph_duts"],
+                         "graph_edges_judged": state["graph_cases"], "run_duts": state["run_duts"],
+                         "run_cycles_judged": state["run_cases"], "constructions_judged": state["constructions"]})
+    mcfgs = cl.mmode_configs(tier)
+    groups = [("all clauses", [x for x in mcfgs if not cl.known_little_atomic(x["spec"])], INVS),
+              ("listed finding class: little ordering with a multi-word atomic register, without AtomicCommit",
+               [x for x in mcfgs if cl.known_little_atomic(x["spec"])], [c for c in INVS if c != "AtomicCommit"])]
+    tot = {"states": 0, "transitions": 0, "wall": 0.0}
+    for label, grp, invs in groups:
+        if not grp:
+            continue
+        try:
+            res = l2.mmode(cl.LANE.m_module, [{"c": x["c"], "m": x["m"]} for x in grp], invs, [],
+                           timeout=1500 if tier == "quick" else 3600)
+        except MachineryError as ex:    # the lane never fails a check: TLC killed / timed out on the model
+            report.note("L2 M-mode (csrbank, %s) could not be evaluated: %s" % (label, str(ex).split("\n")[0][:200]))
+            continue
+        tot["states"] += res.distinct
+        tot["transitions"] += res.generated
+        tot["wall"] += res.wall
+        if res.violated:
+            _mmode_counterexample(report, res, grp, label)
+    report.add(states=tot["states"], transitions=tot["transitions"])
+    big = max(mcfgs, key=lambda x: (len(x["m"]["regs"]), max(fam.r_size(r) for b in x["spec"]["banks"] for r in b["regs"])))
+    report.cov["l2_model"].update({"mmode_configs": len(mcfgs), "mmode_states": tot["states"],
+                                   "mmode_transitions": tot["transitions"], "mmode_wall_s": round(tot["wall"], 1),
+                                   "mmode_largest": describe(big["spec"]),
+                                   "mmode_without_AtomicCommit": sum(1 for x in mcfgs if cl.known_little_atomic(x["spec"]))})
+    for t in state["notes"]:
+        report.note(t)
+    l2.report_drifts(report, cl.LANE, state["drifts"][:5])          # one note per drifting DUT, at most five
+    if len(state["drifts"]) > 5:
+        report.note("MODEL-DRIFT %s: %d more DUT(s) / case(s) drift" % (cl.LANE.name, len(state["drifts"]) - 5))
+        report.add(l2_model_drifts=len(state["drifts"]) - 5)
+    if state["drifts"] and tier == "quick" and not report.violations:
+        # nothing has been reported yet although the code is no longer what was model-checked: look deeper
+        bank = [d for d in state["drifts"] if d["spec"].get("kind") != "sram"]
+        have = {json.dumps(s_, sort_keys=True) for s_, _ in fam.configs("quick") + fam.sram_configs("quick")}
+        if bank:
+            kinds = {r["kind"] for d in bank for b in d["spec"].get("banks", []) for r in b["regs"]} or \
+                    {"storage", "storage_atomic", "status", "status_rw", "csr", "storage_dev"}
+            esc = [(s_, c_) for s_, c_ in fam.configs("thorough") + fam.sweep_configs()
+                   if json.dumps(s_, sort_keys=True) not in have and c_["built"]
+                   and {r["kind"] for b in s_["banks"] for r in b["regs"]} & kinds
+                   and not cl.known_little_atomic(s_)]
+            report.note("escalation: %d thorough-tier register set(s) with registers of kind %s explored against the L1 "
+                        "contract" % (len(esc[:12]), sorted(kinds)))
+            if esc:
+                run_batches(FAMILY, report, [esc[i:i + 6] for i in range(0, min(len(esc), 12), 6)], INVS, [],
+                            spec_budget=300000, total_budget=1200000)
+        if len(bank) != len(state["drifts"]):
+            esc = [x for x in fam.sram_configs("thorough") if json.dumps(x[0], sort_keys=True) not in have]
+            report.note("escalation: %d thorough-tier csr_bus.SRAM window(s) explored against the L1 contract" % len(esc))
+            if esc:
+                run_batches(SRAM_FAMILY, report, [esc], SRAM_INVS, [], spec_budget=300000, total_budget=1200000)
+
+
 # ------------------------------------------------------------------------------------------- entry points
 def run(prop, report, tier, seed):
     report.assume("one CSR bus operation (idle / write / read, never both strobes) per cycle; G-mode at bus words "
                   "of 2 and 4 bits with registers of 1 .. 2w+1 bits, device-side activity of a register combined "
                   "with idle cycles, accesses to that register and reads of every address; T-mode at 8/16/32-bit "
                   "words with registers of at most 30 bits (TLC integers) and free combinations; bank pages distinct")
-    for name, fn in (("construction", lambda: construction_cases(report, tier, seed)),
-                     ("g_mode", lambda: g_mode(report, tier)),
-                     ("sram_windows", lambda: sram_windows(report, tier)),
-                     ("long_runs", lambda: long_runs(report, tier, seed))):
+    report.assume("L2 (specs/csrbank/CsrBankModel.tla): register-level model of CSRFieldAggregate, _sort_gathered_items, "
+                  "CSRStorage (atomic back-store, write_from_dev, fields), CSRStatus (we, re, writable variant), "
+                  "GenericBank / CSRBank (decode, registered read multiplexer), the interconnect's OR and csr_bus.SRAM "
+                  "(page register, sub-word staging); it gives no verdict - every edge of the complete G-mode graphs, "
+                  "every cycle of the long runs and every construction outcome must be reproduced by the model (else "
+                  "MODEL-DRIFT and escalation), and the model is checked against the same clauses in M-mode for banks of "
+                  "five and six registers of up to four bus words")
+    l2state = {"graph_cases": 0, "graph_duts": 0, "run_duts": 0, "run_cases": 0, "constructions": 0, "drifts": [], "notes": []}
+    for name, fn in (("construction", lambda: construction_cases(report, tier, seed, l2state)),
+                     ("g_mode", lambda: g_mode(report, tier, l2state)),
+                     ("sram_windows", lambda: sram_windows(report, tier, l2state)),
+                     ("long_runs", lambda: long_runs(report, tier, seed, l2state)),
+                     ("l2_mmode", lambda: run_l2(report, tier, seed, l2state))):
         t0 = time.time()
         fn()
         report.add(phase_wall_s={name: round(time.time() - t0, 1)})
